@@ -1278,6 +1278,8 @@ class PDFPageInterpreter:
                 [xobj],
                 ctm=mult_matrix(matrix, self.ctm),
             )
+            # the form's interpreter pointed the shared device at its own CTM
+            self.device.set_ctm(self.ctm)
             self.device.end_figure(xobjid)
         elif subtype is LITERAL_IMAGE and "Width" in xobj and "Height" in xobj:
             self.device.begin_figure(xobjid, (0, 0, 1, 1), MATRIX_IDENTITY)
